@@ -240,6 +240,108 @@ theorem sortKeys_pairwise (t : FixTable) :
 theorem mem_sortKeys (t : FixTable) (k : List Char) : k ∈ sortKeys t ↔ k ∈ t.map (·.1) :=
   mem_sortByLen k _
 
+/-! ### the result does not depend on the order of the table -/
+
+theorem lookupFix_some_iff : ∀ (t : FixTable) (k v : List Char), (t.map (·.1)).Nodup →
+    (lookupFix t k = some v ↔ (k, v) ∈ t)
+  | [], k, v, _ => by simp [lookupFix]
+  | (a, b) :: t, k, v, hnd => by
+    simp only [List.map_cons, List.nodup_cons] at hnd
+    have ih := lookupFix_some_iff t k v hnd.2
+    by_cases h : a = k
+    · subst h
+      simp only [lookupFix, List.find?_cons, beq_self_eq_true, Option.map_some, Option.some.injEq,
+        List.mem_cons, Prod.mk.injEq, true_and]
+      constructor
+      · intro e; exact Or.inl e.symm
+      · rintro (e | e)
+        · exact e.symm
+        · exact absurd (List.mem_map_of_mem (f := (·.1)) e) hnd.1
+    · have hb : ((a, b).1 == k) = false := by simpa using h
+      simp only [lookupFix, List.find?_cons, hb, List.mem_cons, Prod.mk.injEq]
+      simp only [lookupFix] at ih
+      rw [ih]
+      constructor
+      · intro e; exact Or.inr e
+      · rintro (⟨e, _⟩ | e)
+        · exact absurd e.symm h
+        · exact e
+
+theorem lookupFix_none_iff : ∀ (t : FixTable) (k : List Char),
+    (lookupFix t k = none ↔ k ∉ t.map (·.1))
+  | [], k => by simp [lookupFix]
+  | (a, b) :: t, k => by
+    have ih := lookupFix_none_iff t k
+    by_cases h : a = k
+    · subst h; simp [lookupFix]
+    · have hb : ((a, b).1 == k) = false := by simpa using h
+      simp only [lookupFix, List.find?_cons, hb, List.map_cons, List.mem_cons, not_or]
+      simp only [lookupFix] at ih
+      rw [ih]
+      constructor
+      · intro e; exact ⟨fun e' => h e'.symm, e⟩
+      · intro e; exact e.2
+
+theorem lookupFix_perm {t₁ t₂ : FixTable} (hp : t₁.Perm t₂) (hnd : (t₁.map (·.1)).Nodup)
+    (k : List Char) : lookupFix t₁ k = lookupFix t₂ k := by
+  have hnd2 : (t₂.map (·.1)).Nodup := (hp.map _).nodup_iff.mp hnd
+  cases h : lookupFix t₁ k with
+  | none =>
+    have := (lookupFix_none_iff t₁ k).mp h
+    have h2 : k ∉ t₂.map (·.1) := fun e => this ((hp.map _).mem_iff.mpr e)
+    exact ((lookupFix_none_iff t₂ k).mpr h2).symm
+  | some v =>
+    have := (lookupFix_some_iff t₁ k v hnd).mp h
+    exact ((lookupFix_some_iff t₂ k v hnd2).mpr (hp.mem_iff.mp this)).symm
+
+theorem firstMatch_perm {t₁ t₂ : FixTable} (hp : t₁.Perm t₂) (rest : List Char) :
+    firstMatch (alternatives t₁) rest = firstMatch (alternatives t₂) rest := by
+  have hk : ∀ k, k ∈ t₁.map (·.1) ↔ k ∈ t₂.map (·.1) := fun k => (hp.map _).mem_iff
+  cases t₁ with
+  | nil => rw [List.nil_perm.mp hp]
+  | cons a t₁' =>
+    cases t₂ with
+    | nil => exact absurd hp.symm (by simp)
+    | cons b t₂' =>
+      simp only [alternatives, List.isEmpty_cons, Bool.false_eq_true, if_false]
+      cases h1 : firstMatch (sortKeys (a :: t₁')) rest with
+      | none =>
+        cases h2 : firstMatch (sortKeys (b :: t₂')) rest with
+        | none => rfl
+        | some k' =>
+          have m := firstMatch_some h2
+          have := firstMatch_none h1 k' ((mem_sortKeys _ k').mpr ((hk k').mpr ((mem_sortKeys _ k').mp m.1)))
+          rw [m.2] at this; cases this
+      | some k =>
+        have m1 := firstMatch_some h1
+        cases h2 : firstMatch (sortKeys (b :: t₂')) rest with
+        | none =>
+          have := firstMatch_none h2 k ((mem_sortKeys _ k).mpr ((hk k).mp ((mem_sortKeys _ k).mp m1.1)))
+          rw [m1.2] at this; cases this
+        | some k' =>
+          have m2 := firstMatch_some h2
+          have l1 := firstMatch_longest (sortKeys_pairwise _) h1 k'
+            ((mem_sortKeys _ k').mpr ((hk k').mpr ((mem_sortKeys _ k').mp m2.1))) m2.2
+          have l2 := firstMatch_longest (sortKeys_pairwise _) h2 k
+            ((mem_sortKeys _ k).mpr ((hk k).mp ((mem_sortKeys _ k).mp m1.1))) m1.2
+          rw [matchesCI_unique k k' rest m1.2 m2.2 (by omega)]
+
+theorem matchVar_perm {t₁ t₂ : FixTable} (hp : t₁.Perm t₂) (hnd : (t₁.map (·.1)).Nodup)
+    (d rest : List Char) : matchVar t₁ d rest = matchVar t₂ d rest := by
+  simp only [matchVar, firstMatch_perm hp rest, lookupFix_perm hp hnd]
+
+theorem substGo_perm {t₁ t₂ : FixTable} (hp : t₁.Perm t₂) (hnd : (t₁.map (·.1)).Nodup)
+    (d : List Char) : ∀ (cs : List Char) (n : Nat), substGo t₁ d n cs = substGo t₂ d n cs
+  | [], n => by simp [substGo]
+  | c :: cs, n + 1 => by simp only [substGo]; exact substGo_perm hp hnd d cs n
+  | c :: cs, 0 => by
+    simp only [substGo, matchVar_perm hp hnd]
+    split
+    · split
+      · rw [substGo_perm hp hnd d cs]
+      · rw [substGo_perm hp hnd d cs]
+    · rw [substGo_perm hp hnd d cs]
+
 /-! ## collapse_all -/
 
 theorem children_length_le (files : List (List Nat)) (b : Nat) (hb : ∀ f ∈ files, f.length ≤ b)
